@@ -353,7 +353,25 @@ def main():
                 continue
             cls = [(classify_failure(f), f) for f in pr["fails"]]
             obs = [f for c, f in cls if c == "observable"]
+            if o.only:
+                # assertions of the shared harness that state another property's clause
+                foreign = [f for f in obs if f["desc"].startswith("OBS ") and not re.search(o.only, f["desc"])]
+                obs = [f for f in obs if f not in foreign]
+                if foreign and not obs and not [1 for c, _ in cls if c != "observable"]:
+                    results[o.id] = dict(status="discharged", backend="kani/cbmc+cadical", time_s=r["time"], checks=r["checks"],
+                                         covers=r["covers"], note="only assertions belonging to other properties failed: "
+                                         + "; ".join(sorted({f["desc"] for f in foreign}))[:300])
+                    continue
             internal = [f for c, f in cls if c == "internal"]
+            if not obs and internal and o.confirm:
+                # representation obligation failed: look for an observable consequence
+                cout = run_kani_single(o.features, o.confirm, timeout_s)
+                cpr = parse_regular(cout)
+                cobs = [f for f in cpr["fails"] if classify_failure(f) == "observable"]
+                if cobs:
+                    (CACHE / f"fail_{o.id.replace('/', '_')}.confirm.log").write_text(cout)
+                    pr, out, obs = cpr, cout, cobs
+                    o = registry.Obl(**{**o.__dict__, "target": o.confirm, "id": o.id})
             if not obs and not internal:
                 why = "solver timeout / no result"
                 if pr["unsat_covers"]:
@@ -487,9 +505,14 @@ def main():
         samples.append(dict(obligation=o.id, engine=o.engine, target=o.target, kind=o.kind, bound=o.bound,
                             result=results.get(o.id, {}).get("status", "not-run")))
     assumptions = registry_assumptions(prop)
+    level = "proof" if complete else "other"
     ev = dict(
-        property_id=prop, tier=tier, seed=seed, level="proof",
+        property_id=prop, tier=tier, seed=seed, level=level,
         coverage=dict(
+            explanation=("contract obligations discharged by a deductive/bit-precise verifier for all inputs within the stated bounds; "
+                         "bounded obligations are listed separately and not counted as proved"),
+            evaluations=len(obls), distinct_nontrivial=n_disch + n_bdisch,
+            rule="one evaluation = one obligation (contract harness or Verus function) run by this check; non-trivial = discharged with its vacuity covers satisfied",
             obligations=len(complete), discharged=n_disch,
             checker_cmd=" ; ".join(sorted(set(cmds))),
             trusted_base=["rustc (Kani's pinned nightly) + Kani 0.68 + CBMC 6.11 + CaDiCaL", "Verus 0.2026.09.13 + Z3",
